@@ -102,6 +102,17 @@ theorem heap_clone_abs_of_defined (f : Nat) (h : Heap) (a : Addr) (n : Node)
   refine ⟨h', r, hcl, ?_, absH_mono (cloneF_spec f h a h' r hcl).1 f a n hn⟩
   rw [clone_id]; exact hab
 
+/-- The driver's entry points (`clone`, `abs`: fuel = heap size): on every closed acyclic heap
+    Clone of any in-range root succeeds, the clone abstracts to the original's document and the
+    original still does. -/
+theorem heap_clone_total (h : Heap) (hc : h.Closed) (ha : h.Acyclic) (a : Addr) (hlt : a < h.size) :
+    ∃ n h' r, abs h a = some n ∧ Ytk.Heap.clone h a = some (h', r) ∧
+      abs h' r = some (Ytk.clone n) ∧ abs h' a = some n := by
+  obtain ⟨n, hn⟩ := abs_defined hc ha hlt
+  obtain ⟨h', r, hcl, hr, hor⟩ := heap_clone_abs_of_defined h.size h a n hn
+  have hsz := Heap.size_le_of_le (cloneF_spec h.size h a h' r hcl).1
+  exact ⟨n, h', r, hn, hcl, absH_fuel_le hsz hr, absH_fuel_le hsz hor⟩
+
 /-- Cloning never writes an existing cell: the old heap is a prefix of the new one, cell for cell. -/
 theorem heap_clone_prefix (f : Nat) (h h' : Heap) (a r : Addr) (hc : cloneF f h a = some (h', r)) :
     h ≤ h' ∧ ∀ b, b < h.size → h'.get? b = h.get? b :=
